@@ -1473,3 +1473,7 @@ fn set_font_selection_success(buf: &mut Buffer, caret: &mut Caret, slot: usize) 
 pub fn parse_next_number(x: i32, ch: u8) -> i32 {
     x.saturating_mul(10).saturating_add(ch as i32).saturating_sub(b'0' as i32)
 }
+
+#[cfg(any(kani, icy_engine_verif))]
+#[path = "/verif/kc/ansi_harness.rs"]
+mod verif_kani;
